@@ -2,6 +2,7 @@
 Model: coq/theories/Pseudo/Pseudo.v; theorems: Props/C20.v."""
 import functools
 import itertools
+import unicodedata
 import re
 import sexp
 
@@ -54,9 +55,24 @@ def generate(rng, tier):
         for L in (chr(97 + i), chr(65 + i)):
             cases += [case(L), case(L + L), case('<' + L + '>'), case(L + '<b>' + L), case('&' + L + ';' + L)]
     yield ('exhaustive-letters-in-context', cases)
+    # characters that are NOT ASCII letters but are related to them by Unicode case folding, compatibility or look (long s,
+    # Kelvin sign, dotless i, dotted I, fullwidth and mathematical letters, Greek/Cyrillic look-alikes, combining marks after a
+    # letter, sharp s, ligatures): all of them must pass through untouched, in every context and with every flag
+    near = ['\u017f', '\u212a', '\u0131', '\u0130', '\uff41', '\uff21', '\uff5a', '\U0001d41a', '\U0001d400', '\u0391', '\u0430', '\u0435',
+            '\u00aa', '\u00ba', '\u00b5', '\u00df', '\ufb01', '\u2126', '\u212b', 'a\u0301', 'E\u0300', '\u1e9e', '\u00e6', '\u0153', '\u2170', '\u24d0']
+    cases = []
+    for ch in near:
+        cases += [case(ch), case(ch + ch), case('a' + ch + 'Z'), case(ch + ' text ' + ch), case('<' + ch + '>x'), case('x<b ' + ch + '="1">' + ch),
+                  case('Hello ' + ch + 'orld'), case(ch + 'aeou' + ch.upper() + ch.lower())]
+        # inside &...; only characters on which Python's and Rust's \w certainly agree (letters): the oracle's reference pattern is a
+        # Python regex, and the two engines differ on combining marks and on Other_Alphabetic symbols such as U+24D0
+        if all(unicodedata.category(c).startswith('L') for c in ch):
+            cases.append(case('&' + ch + ';' + ch))
+    yield ('near-letters', cases)
     pieces = ['<a>', '</a>', '<b href="x">', '< i >', '<\n>', '<>', '< >', '&amp;', '&#x202a;', '&#1;', '&;', '&a b;', '&é;', '&€;',
               'Hello', 'World', ' ', '\n', '\u00e9', '\u00df', '\u0663', '\u4e2d', '\u20ac', '\U0001f600', '\u00a0', '\u3000', '\u2028', '\u0085',
-              '<', '>', '&', ';', '#', '_', '0', 'aeou', 'AEOU', 'x', '/', '=', '"', '>>', '<<', '<a', 'a>', '&a', 'a;', '.', '[', ']']
+              '<', '>', '&', ';', '#', '_', '0', 'aeou', 'AEOU', 'x', '/', '=', '"', '>>', '<<', '<a', 'a>', '&a', 'a;', '.', '[', ']',
+              '\u017f', '\u212a', '\u0131', '\uff41', '<a href="x"\n>', '</b\r\n>', '<\nbr>', '<a\nb>', '&amp\n;']
     n = 20000 if tier == 'quick' else 300000
     cases = []
     for _ in range(n):
